@@ -1,4 +1,4 @@
-\* generation (thorough): as Gen_StateBuffer.cfg plus a plain account, a longer account log and free use of Update
+\* generation (thorough): as Gen_StateBuffer.cfg plus a plain account, a longer account log
 SPECIFICATION Spec
 CONSTANTS
   Accts = {"a1"}
